@@ -214,3 +214,22 @@ Theorem C04_derived_index_has_dictionary :
   forall (is_frame : bool) (k : ckey) (src : axkind), is_all k = false -> derived_kind is_frame k src = KMap.
 Proof. exact derived_index_has_dictionary. Qed.
 Print Assumptions C04_derived_index_has_dictionary.
+
+(* single_row -- whether the row key selects exactly one row, which decides the re-shaping of every sliced block -- is, per
+   class of row key (null / integer / slice / Boolean array / list), the if/elif chain of TypeBlocks._slice_blocks regenerated
+   from /repo on every run; SF.Select.single_row (used by M_extract) is that decision applied to the key's own quantity *)
+Theorem C04_single_row_is_source :
+  (forall kind rows range_n count len, single_row_dec kind rows range_n count len = single_row_src kind rows range_n count len) /\
+  (forall rk n, single_row rk n =
+     match rk with
+     | CAll => Ok (single_row_dec RNull n 0 0 0)
+     | CInt _ => Ok (single_row_dec RInt n 0 0 0)
+     | CSlice s => match slice_indices s n with
+                   | None => Err "ValueError"
+                   | Some (a, b, st) => Ok (single_row_dec RSlice n (range_len a b st) 0 0)
+                   end
+     | CMask m => Ok (single_row_dec RMask n 0 (count_true m) 0)
+     | CList l => Ok (single_row_dec RIter n 0 0 (Z.of_nat (length l)))
+     end).
+Proof. exact single_row_decision. Qed.
+Print Assumptions C04_single_row_is_source.
